@@ -78,7 +78,7 @@ PROPS = {
         "assumptions": ASSUME_COMMON + ["a query that overlaps a store of the referenced message in the recorded op order is not judged", "scan conditions are not generated"],
     },
     "C17": {
-        "families": ["c17"],
+        "families": ["c17"] * 9 + ["c17d"],
         "runs": {"quick": 20000, "thorough": 300000},
         "level": "exploration",
         "rule": "one evaluation = one simulated run: 2..12 pollable messages with priorities 0..9 loaded from CSV, phases of 150..1650 getNextPoll() calls (bus role) with clock steps, separated by priority changes with front/back re-insertion and by definitions loaded late (main role). Judged per perturbation-free window against stride scheduling bounds (doubled constant 36, one settling window). Non-trivial = more than 50 selections; distinct = distinct trace hashes among those.",
@@ -105,7 +105,7 @@ PROPS = {
         "components": {"real": ["whole daemon except main()"], "stub": ["as C09"]},
         "assumptions": ASSUME_COMMON + ["pipelined TCP command lines are not generated (the client protocol is request/response)", "invalid percent escapes are not judged"]},
     # sanitizers and watchdogs watch every family
-    "C20": {"families": ["c20"] * 10 + ["c20s"] * 4 + ["c14e", "c14e", "c14e", "c14p", "c01a", "c01b", "c15", "c04", "c04s", "c04s", "c04s", "c04s", "c09", "c12", "c12o", "c16", "c16v", "c18t", "c18h", "c18m", "c13", "c17", "c09w", "c09s", "c09f", "c02", "c03"], "runs": {"quick": 20000, "thorough": 300000}, "level": "exploration", "timeout_ms": 30000,
+    "C20": {"families": ["c20"] * 10 + ["c20s"] * 4 + ["c14e", "c14e", "c14e", "c14p", "c01a", "c01b", "c15", "c04", "c04s", "c04s", "c04s", "c04s", "c09", "c12", "c12o", "c16", "c16v", "c18t", "c18h", "c18m", "c13", "c17", "c17d", "c09w", "c09s", "c09f", "c02", "c03"], "runs": {"quick": 20000, "thorough": 300000}, "level": "exploration", "timeout_ms": 30000,
         "claims": ["C20"],
         "rule": "one evaluation = one simulated run under ASan+UBSan: (c20) whole daemon with garbage command lines, HTTP requests, definition text through define/read -def/decode/encode, garbage symbols on the bus, then valid probes that must still be answered correctly; (c14e) arbitrary adapter frames; (c01a, c15) arbitrary bus traffic with and without registered answers. Any sanitizer report, abort, deadlock, step budget overrun or wrong probe result is a violation. Non-trivial as in the families; distinct = distinct trace hashes.",
         "components": {"real": ["whole daemon except main() (c20); protocol stack (c01a, c15); device layer (c14e)"], "stub": ["as C09"]},
